@@ -63,12 +63,10 @@ Section TxProofs.
   (* ---- the protection step of append_files (regenerated flags, whatever their values) ---- *)
   Lemma protect_tag ft m fs t : protect ft m fs = Some t -> t <> 0.
   Proof.
-    unfold protect. destruct (unprotected m fs); [discriminate|].
-    destruct ft as [[]|]; try discriminate.
-    - destruct adopt_marker_failure_propagates; [|discriminate]. intro H; inversion H; discriminate.
-    - destruct adopt_listing_failure_propagates; [|discriminate]. intro H; inversion H; discriminate.
-    - destruct adopt_refused_while_collecting; [|discriminate]. intro H; inversion H; discriminate.
-    - destruct adopt_recheck_failure_propagates; [|discriminate]. intro H; inversion H; discriminate.
+    unfold protect.
+    generalize adopt_marker_failure_propagates, adopt_listing_failure_propagates, adopt_refused_while_collecting, adopt_recheck_failure_propagates.
+    intros b1 b2 b3 b4. destruct (unprotected m fs); [discriminate|].
+    destruct ft as [[]|]; destruct b1, b2, b3, b4; intro H; inversion H; discriminate.
   Qed.
 
   Lemma protect_nothing ft m fs : unprotected m fs = [] -> protect ft m fs = None.
